@@ -282,3 +282,60 @@ def width_bottom(ctx, repo):
 
 
 ALL.append(width_bottom)
+
+
+# ---------------------------------------------------------------------------
+# SUBR-pair: callsubr goes with the local subroutines / bias, callgsubr with the global ones
+# ---------------------------------------------------------------------------
+def callsubr_pairing(ctx, repo):
+    ctx.rule("SUBR-pair", "wherever code chooses between the local and the global subroutine bias / index by the operator name, `callsubr` selects the local* one and `callgsubr` the global* one (a swap resolves every call through the other index: same numbers when both biases are 107, another subroutine otherwise)", floor=1)
+    n = 0
+    for rel in sorted(repo.rels()):
+        if not (rel.startswith("cffLib/") or rel in ("misc/psCharStrings.py", "subset/cff.py", "varLib/cff.py")):
+            continue
+        m = repo.mod(rel)
+        for x in ast.walk(m.tree):
+            arms = None
+            if isinstance(x, ast.IfExp):
+                arms = (x.test, [x.body], [x.orelse])
+            elif isinstance(x, ast.If) and x.orelse:
+                arms = (x.test, x.body, x.orelse)
+            if arms is None:
+                continue
+            test, a, b = arms
+            if not (isinstance(test, ast.Compare) and len(test.ops) == 1 and isinstance(test.ops[0], (ast.Eq, ast.NotEq)) and isinstance(test.comparators[0], ast.Constant) and test.comparators[0].value in ("callsubr", "callgsubr")):
+                continue
+            local_first = (test.comparators[0].value == "callsubr") == isinstance(test.ops[0], ast.Eq)
+            ta = " ".join(norm(s) for s in a)
+            tb = " ".join(norm(s) for s in b)
+
+            def kind(t):
+                lo, gl = "local" in t.lower(), "global" in t.lower() or "gsubr" in t.lower().replace("callgsubr", "")
+                return "local" if lo and not gl else "global" if gl and not lo else None
+
+            ka, kb = kind(ta), kind(tb)
+            if ka is None or kb is None:
+                continue
+            n += 1
+            ctx.consult(rel)
+            ok = (ka, kb) == (("local", "global") if local_first else ("global", "local"))
+            ctx.ob("SUBR-pair", f"{rel}:{x.lineno}", f"`{norm(test)}` selects {ka} / else {kb}", ok, "" if ok else "callsubr is resolved with the global bias / index (and callgsubr with the local one)")
+        # handler methods: op_callsubr works on the local index / bias, op_callgsubr on the global one
+        for q, f in sorted(m.funcs.items()):
+            nm = getattr(f.node, "name", "")
+            if nm not in ("op_callsubr", "op_callgsubr"):
+                continue
+            attrs = {a.attr for a in ast.walk(f.node) if isinstance(a, ast.Attribute) and norm(a.value) == "self"}
+            lo = {a for a in attrs if a.lower().startswith("local")}
+            gl = {a for a in attrs if a.lower().startswith("global")}
+            if not lo and not gl:
+                continue
+            n += 1
+            ctx.consult(rel)
+            ok = (bool(lo) and not gl) if nm == "op_callsubr" else (bool(gl) and not lo)
+            ctx.ob("SUBR-pair", f.where, f"{nm} uses {sorted(lo | gl)}", ok, "" if ok else "the handler resolves the call through the other subroutine index / bias")
+    if n < 1:
+        raise AnalysisError("SUBR-pair: no local/global choice keyed on the operator name found (CFFToCFF2._convertCFFToCFF2 confirmed by hand)")
+
+
+ALL.append(callsubr_pairing)
